@@ -201,7 +201,8 @@ def main(REG):
         problems.append({"kind": "correspondence", "what": "harness does not build against the current tree", "log_tail": hb_log[-1500:]})
     else:
         hcmd = [os.path.join(V, "work", "bin", cfg["harness"]), "--tier", tier, "--seed", str(a.seed), "--out", work] + cfg.get("harness_args", [])
-        pre = "ulimit -v %d; " % cfg.get("ulimit_kb", 24000000)
+        ul = cfg.get("ulimit_kb", 24000000)   # 0 = no address-space limit (the race detector's shadow memory needs it)
+        pre = ("ulimit -v %d; " % ul) if ul else ""
         rc, out, dt = sh(pre + " ".join(hcmd), timeout=cfg.get("harness_timeout", {"quick": 900, "thorough": 7200})[tier])
         sp = os.path.join(work, "summary.json")
         if rc != 0 or not os.path.exists(sp):
@@ -244,7 +245,7 @@ def main(REG):
             if f["class"] in seen:
                 continue
             seen.add(f["class"])
-            rp = os.path.join("replays", "%s_%s_seed%d.json" % (prop, f["class"], a.seed))
+            rp = os.path.join("replays", "%s_%s_seed%d.json" % (prop, re.sub(r"[^A-Za-z0-9_.-]+", "_", f["class"])[:120], a.seed))
             json.dump({"property": prop, "tier": tier, "seed": a.seed, "class": f["class"], "detail": f["detail"], "case": f.get("case"),
                        "how": "./check %s --replay %s" % (prop, rp)}, open(os.path.join(V, rp), "w"), indent=1)
             lines.append("VIOLATION property=%s replay=%s" % (prop, rp))
